@@ -76,7 +76,7 @@ fn quantify_of(b: DynCallPatternBuilder) -> Quantify<'static, F8, InAnyOrder> {
 
 /// Quantify::{once, n_times, at_least_times} == quantify(1|t, Exact|AtLeast): running index and minimum advance by the
 /// repeat count, exactness is set, responders untouched.
-//@K props=C02,C03 tier=quick label=full feat=std fn=Quantify::once,Quantify::n_times,Quantify::at_least_times
+//@K props=C02,C03,C14 tier=quick label=full feat=std fn=Quantify::once,Quantify::n_times,Quantify::at_least_times
 #[kani::proof]
 #[kani::unwind(3)]
 fn quantify_variants() {
@@ -87,10 +87,11 @@ fn quantify_variants() {
     let which: u8 = kani::any();
     kani::assume(which < 3);
     let q = quantify_of(b);
+    // the type-level marker agrees with the recorded exactness (0 = Exact, 1 = AtLeast)
     let (nb, add, ek) = match which {
-        0 => (q.once().wrapper.into_owned(), 1, 0u8),
-        1 => (q.n_times(t).wrapper.into_owned(), t, 0u8),
-        _ => (q.at_least_times(t).wrapper.into_owned(), t, 1u8),
+        0 => { let r = q.once(); assert!(rep_marker(&r) == 0); (r.wrapper.into_owned(), 1, 0u8) }
+        1 => { let r = q.n_times(t); assert!(rep_marker(&r) == 0); (r.wrapper.into_owned(), t, 0u8) }
+        _ => { let r = q.at_least_times(t); assert!(rep_marker(&r) == 1); (r.wrapper.into_owned(), t, 1u8) }
     };
     check_state(&nb, s.idx + add, s.min + add, ek, 0);
     kani::cover!(which == 0);
@@ -113,6 +114,24 @@ fn then_marks_at_least_plus_one() {
     core::mem::forget(nb);
 }
 
+/// The compile-time repetition marker of a QuantifiedResponse, read as a value: 0 = Exact (`.then()` is accepted by rustc),
+/// 1 = AtLeast (`.then()` is a type error).  C14: "then() can only follow an exact count" holds at compile time exactly when the
+/// three quantifiers hand out the marker that matches the count they record.
+fn rep_marker<'p, F: MockFn, O, R>(_q: &QuantifiedResponse<'p, F, O, R>) -> u8
+where
+    R: crate::property::Repetition,
+    R::Kind: 'static,
+{
+    use core::any::TypeId;
+    if TypeId::of::<R::Kind>() == TypeId::of::<Exact>() {
+        0
+    } else if TypeId::of::<R::Kind>() == TypeId::of::<AtLeast>() {
+        1
+    } else {
+        2
+    }
+}
+
 /// QuantifyReturnValue is only ever created by DefineResponse::returns on a FRESH builder (some_call / next_call), so the
 /// fresh state (index 0, minimum 0, AtLeast) is its whole reachable domain; it is built through that real path here.
 fn qrv_fresh(mode: PatternMatchMode, v: u8) -> QuantifyReturnValue<'static, F8, u8, InAnyOrder> {
@@ -122,13 +141,14 @@ fn qrv_fresh(mode: PatternMatchMode, v: u8) -> QuantifyReturnValue<'static, F8, 
 
 /// QuantifyReturnValue::once: pushes ONE returner at the running index, then quantify(1, Exact); the stored value is
 /// SINGLE-USE: first request Some(v), every later request None (C02, C12).
-//@K props=C02,C03,C12 tier=quick label=full feat=std fn=QuantifyReturnValue::once
+//@K props=C02,C03,C12,C14 tier=quick label=full feat=std fn=QuantifyReturnValue::once
 #[kani::proof]
 #[kani::unwind(3)]
 #[kani::stub(core::mem::swap, swap_stub)] // steal(): chunked byte swap of pointer-carrying structs times out in CBMC
 fn qrv_once_is_single_use() {
     let v: u8 = kani::any();
     let q = qrv_fresh(PatternMatchMode::InAnyOrder, v).once();
+    assert!(rep_marker(&q) == 0);
     let nb = q.wrapper.into_owned();
     check_state(&nb, 1, 1, 0, 1);
     assert!(nb.responders[0].response_index == 0);
@@ -149,7 +169,9 @@ macro_rules! qrv_multi {
         fn $name() {
             let t: usize = kani::any();
             let v: u8 = kani::any();
-            let nb = qrv_fresh(PatternMatchMode::InAnyOrder, v).$method(t).wrapper.into_owned();
+            let q = qrv_fresh(PatternMatchMode::InAnyOrder, v).$method(t);
+            assert!(rep_marker(&q) == $k); // the type-level marker agrees with the recorded exactness
+            let nb = q.wrapper.into_owned();
             check_state(&nb, t, t, $k, 1);
             assert!(nb.responders[0].response_index == 0);
             assert!(output_of(&nb.responders[0].responder) == Some(v));
@@ -161,9 +183,9 @@ macro_rules! qrv_multi {
         }
     };
 }
-//@K props=C02,C03,C12 tier=quick label=full feat=std fn=QuantifyReturnValue::n_times
+//@K props=C02,C03,C12,C14 tier=quick label=full feat=std fn=QuantifyReturnValue::n_times
 qrv_multi!(qrv_n_times_is_repeatable, n_times, 0);
-//@K props=C02,C03,C12 tier=quick label=full feat=std fn=QuantifyReturnValue::at_least_times
+//@K props=C02,C03,C12,C14 tier=quick label=full feat=std fn=QuantifyReturnValue::at_least_times
 qrv_multi!(qrv_at_least_times_is_repeatable, at_least_times, 1);
 
 /// Drop for QuantifyReturnValue (unquantified `returns(v)` inside a stub): pushes the single-use returner, no quantification.
